@@ -5,6 +5,7 @@ package main
 import (
 	"fmt"
 	"go/types"
+	"os"
 	"sort"
 	"strings"
 
@@ -14,11 +15,11 @@ import (
 type abortKind int
 
 const (
-	abInfeasible abortKind = iota // assumption unsatisfiable: path ends silently
-	abUnsupported                 // engine cannot model something: inconclusive
-	abBudget                      // unwinding failure
-	abStop                        // harness finished early (assert const-false etc.)
-	abSolver                      // solver failure: inconclusive
+	abInfeasible  abortKind = iota // assumption unsatisfiable: path ends silently
+	abUnsupported                  // engine cannot model something: inconclusive
+	abBudget                       // unwinding failure
+	abStop                         // harness finished early (assert const-false etc.)
+	abSolver                       // solver failure: inconclusive
 )
 
 type pathAbort struct {
@@ -44,7 +45,7 @@ type Violation struct {
 
 type PathResult struct {
 	Decisions    []int32
-	Forks        [][]int32
+	Forks        []forkItem
 	Obligations  int
 	Discharged   int
 	Violations   []Violation
@@ -62,31 +63,53 @@ type PathResult struct {
 }
 
 type Exec struct {
-	eng    *Engine
-	ts     *TermStore
-	sess   *Session
-	prefix []int32
-	taken  []int32
-	pc     []*Term
-	occ    map[string]int
-	choices map[string]uint64 // concrete decision inputs (Choose/Fault) by name#occ
-	steps  int64
-	maxSteps int64
+	eng          *Engine
+	ts           *TermStore
+	sess         *Session
+	prefix       []int32
+	taken        []int32
+	pc           []*Term
+	occ          map[string]int
+	choices      map[string]uint64 // concrete decision inputs (Choose/Fault) by name#occ
+	steps        int64
+	maxSteps     int64
 	maxDecisions int
-	globals map[*ssa.Global]*Value
-	gmemo  map[any]any
-	res    *PathResult
-	known  []knownClass
-	depth  int
-	ghost  map[string]any // free-form per-path state for intrinsics (symfs, clock, logs)
-	wantSample bool
-	curFn  *ssa.Function
-	callStack []*ssa.Function
-	initMode bool
-	initPkg  *ssa.Package
-	obsTerms []obsTerm
-	byteGroups []byteGroup
-	replay   map[string]uint64 // concrete re-execution: every input takes its value from here
+	globals      map[*ssa.Global]*Value
+	gmemo        map[any]any
+	res          *PathResult
+	known        []knownClass
+	depth        int
+	ghost        map[string]any // free-form per-path state for intrinsics (symfs, clock, logs)
+	wantSample   bool
+	curFn        *ssa.Function
+	callStack    []*ssa.Function
+	initMode     bool
+	initPkg      *ssa.Package
+	obsTerms     []obsTerm
+	byteGroups   []byteGroup
+	replay       map[string]uint64 // concrete re-execution: every input takes its value from here
+	// model is an assignment known to satisfy the path condition (nil: none at
+	// hand). A branch condition is first evaluated under it: the side the model
+	// takes is feasible without asking the solver, so only the other side costs a
+	// query. Variables introduced after the model was fetched read as 0; every
+	// constraint added to the path condition is evaluated under the model and
+	// drops it when it does not hold.
+	model      map[string]uint64
+	modelEvals int64
+	prefixVals []uint64 // concretize picks recorded along the prefix
+	takenVals  []uint64
+}
+
+// forkItem is a sibling path still to be explored: its decision prefix and the
+// values picked by concretize along it (so that a replay of the prefix does not
+// have to ask the solver for them again).
+type forkItem struct {
+	dec  []int32
+	vals []uint64
+}
+
+func (ex *Exec) pushFork(sib []int32) {
+	ex.res.Forks = append(ex.res.Forks, forkItem{dec: sib, vals: append([]uint64(nil), ex.takenVals...)})
 }
 
 type knownClass struct {
@@ -118,8 +141,45 @@ func (ex *Exec) assume(c *Term) {
 	if c.IsTrue() {
 		return
 	}
+	if ex.model != nil {
+		if v, ok := ex.evalCond(c); !ok || !v {
+			ex.model = nil
+		}
+	}
 	ex.pc = append(ex.pc, c)
 	ex.sess.Assert(c)
+}
+
+var modelGuided = os.Getenv("GOSYM_NO_MODEL") == ""
+var modelParanoid = os.Getenv("GOSYM_MODEL_PARANOID") != ""
+
+// evalCond evaluates a boolean term under the cached model.
+func (ex *Exec) evalCond(c *Term) (val bool, ok bool) {
+	if ex.model == nil {
+		return false, false
+	}
+	defer func() {
+		if r := recover(); r != nil {
+			val, ok = false, false
+		}
+	}()
+	ex.modelEvals++
+	return evalTerm(c, ex.model) == 1, true
+}
+
+// ensureModel fetches a model of the path condition if none is at hand.
+func (ex *Exec) ensureModel() {
+	if ex.model != nil || !modelGuided || ex.replay != nil {
+		return
+	}
+	r, m, err := ex.sess.Check(nil, true, ex.ts.vars)
+	if err != nil || r != Sat {
+		return
+	}
+	if m == nil {
+		m = map[string]uint64{}
+	}
+	ex.model = m
 }
 
 func (ex *Exec) check(extra *Term) SatResult {
@@ -153,13 +213,34 @@ func (ex *Exec) Branch(c *Term, why string) bool {
 		}
 		return d == 1
 	}
+	nc := ex.ts.Not(c)
+	ex.ensureModel()
+	if v, ok := ex.evalCond(c); ok {
+		// the model's side is feasible; only the other side needs the solver
+		mine, other := c, nc
+		d := int32(1)
+		if !v {
+			mine, other, d = nc, c, 0
+		}
+		if modelParanoid && ex.check(mine) != Sat {
+			ex.res.Inconclusive = append(ex.res.Inconclusive, "model-guided branch: the solver does not confirm the side the model takes ("+why+")")
+		}
+		if ex.check(other) != Unsat {
+			sib := make([]int32, len(ex.taken)+1)
+			copy(sib, ex.taken)
+			sib[len(ex.taken)] = 1 - d
+			ex.pushFork(sib)
+		}
+		ex.taken = append(ex.taken, d)
+		ex.assume(mine)
+		return d == 1
+	}
 	rt := ex.check(c)
 	if rt == Unsat {
 		ex.taken = append(ex.taken, 0)
 		ex.assume(ex.ts.Not(c))
 		return false
 	}
-	nc := ex.ts.Not(c)
 	rf := ex.check(nc)
 	if rf == Unsat {
 		ex.taken = append(ex.taken, 1)
@@ -170,7 +251,7 @@ func (ex *Exec) Branch(c *Term, why string) bool {
 	sib := make([]int32, len(ex.taken)+1)
 	copy(sib, ex.taken)
 	sib[len(ex.taken)] = 0
-	ex.res.Forks = append(ex.res.Forks, sib)
+	ex.pushFork(sib)
 	ex.taken = append(ex.taken, 1)
 	ex.assume(c)
 	return true
@@ -207,7 +288,7 @@ func (ex *Exec) Choose(name string, lo, hi int) int {
 			sib := make([]int32, len(ex.taken)+1)
 			copy(sib, ex.taken)
 			sib[len(ex.taken)] = int32(k)
-			ex.res.Forks = append(ex.res.Forks, sib)
+			ex.pushFork(sib)
 		}
 	}
 	ex.taken = append(ex.taken, d)
@@ -240,6 +321,10 @@ func (ex *Exec) Assume(c *Term) {
 	}
 	if len(ex.taken) < len(ex.prefix) {
 		// inside the replayed prefix feasibility was established already
+		ex.assume(c)
+		return
+	}
+	if v, ok := ex.evalCond(c); ok && v {
 		ex.assume(c)
 		return
 	}
@@ -327,7 +412,7 @@ func (ex *Exec) Assert(label string, c *Term) {
 		ex.abort(abStop, "assertion %s is constant false", label)
 	}
 	// continue under the assumption that the assertion holds
-	if ex.check(c) == Unsat {
+	if v, ok := ex.evalCond(c); !(ok && v) && ex.check(c) == Unsat {
 		ex.abort(abStop, "assertion %s fails on every input of this path", label)
 	}
 	ex.assume(c)
